@@ -160,6 +160,11 @@ def ch_obligations(tier, H):
             obs.append(Ob("c12_failing_{0}_{1}".format(exc, form.replace(".", "")), "rid: int, arg: int",
                           "H.h_failing_method({0!r}, rid, arg)".format(shape), shape=shape,
                           twin_codes=(102,) if form == "notify" else (100,), timeout=90))
+    # a malformed request (body shorter than announced, peer half-closes) is answered and does not wedge the handler
+    for text in (1, 5):
+        shape = {"part": "do_POST", "text": text, "reply": 0, "missing": 3}
+        obs.append(Ob("c12_truncated_body_{0}".format(text), "c1: int, c2: int", "H.h_do_post({0!r}, c1, c2, 'application/json-rpc')".format(shape),
+                      pre=["0 <= c1 <= c2 <= 8"], shape=shape, twin_codes=(100,), timeout=90))
     obs.append(Ob("c12_pool_user", "", "H.h_pool_ownership({'pool': 'user'})", shape="user-supplied pool is used as given", twin_codes=(100,)))
     obs.append(Ob("c12_pool_default", "", "H.h_pool_ownership({'pool': 'default'})", shape="default pool is created and started", twin_codes=(101,)))
     return obs
